@@ -1,2 +1,8 @@
 import PysamlModel.Core.Proto
+import PysamlModel.Props.C01
+import PysamlModel.Props.C04
+import PysamlModel.Props.C05
+import PysamlModel.Props.C06
+import PysamlModel.Props.C07
 import PysamlModel.Props.C08
+import PysamlModel.Props.C20
